@@ -70,7 +70,7 @@ class C13(Prop):
             "terminator is the last accessible byte. non-trivial = text with >= 1 comment and >= 1 string containing a backslash followed "
             "by >= 1 further string token; fuzz inputs: contain a quote and a slash or backslash; distinct by text hash")
     ASSUMPTIONS = ["a // comment that is not closed by LF before the terminator and an unterminated /* are treated as running to the end of the text"]
-    REQUIRED_CLASSES = ["nontrivial_text", "string_ending_in_backslash", "block_comment", "line_comment", "safety_bytes", "buffer_reused"]
+    REQUIRED_CLASSES = ["nontrivial_text", "string_ending_in_backslash", "block_comment", "line_comment", "safety_bytes", "buffer_reused", "nesting>=256"]
 
     def budget(self, tier):
         return {"workers": 10, "examples": 1500 if tier == "quick" else 30000}
@@ -88,6 +88,10 @@ class C13(Prop):
         leaves = gens.scalars_text(strings=strings)
         keys = st.one_of(st.lists(st.sampled_from(SPECIAL), max_size=5).map(bytes), gens.ascii_keys(3))
         docs = st.one_of(gens.shaped_documents(leaves, keys, max_leaves=10, min_leaves=3), gens.shaped_documents(leaves, keys, max_leaves=4))
+        # nesting up to the parser's limit (a valid text): whatever Minify counts, it must not run out of counter
+        deepdocs = st.tuples(st.sampled_from(["[", "{", "[{", "{[", "{{["]), st.sampled_from([100, 127, 128, 129, 255, 256, 257, 300, 511, 512, 513, 999, 1000]), leaves).map(
+            lambda t: model.expand(["D", t[0], t[1], t[2]]))
+        docs = gens.weighted((30, docs), (1, deepdocs))
         value = st.fixed_dictionaries({"kind": st.just("value"), "jv": docs, "rseed": st.integers(0, 2 ** 31),
                                        "style": st.sampled_from([None, "short", "short", "raw"])})
         safety = st.fixed_dictionaries({"kind": st.just("bytes"), "data": st.one_of(
@@ -135,6 +139,8 @@ class C13(Prop):
             stats.cls("block_comment")
         if b"//" in b"".join(pieces[::2]):
             stats.cls("line_comment")
+        if model.depth_of(jv) >= 256:
+            stats.cls("nesting>=256")
         if any(t.endswith(b'\\\\"') for t in strs):
             stats.cls("string_ending_in_backslash")
         idx = [i for i, t in enumerate(strs) if b"\\" in t]
